@@ -296,6 +296,8 @@ func propC09() *PropSpec {
 			js = append(js, jobsN("json", "VerifJSONReaccept", pick(rng(0, 5), rng(0, 6)), "json: accepted => output accepted again (arbitrary bytes)")...)
 			js = append(js, jobsN("xml", "VerifXMLReaccept", pick(rng(0, 5), rng(0, 6)), "xml: accepted => output accepted again (arbitrary bytes)")...)
 			js = append(js, jobsN("xml", "VerifXMLUnits", rng(1, 3), "xml: output well-formed for ]]> fragments in text and across CDATA sections")...)
+			js = append(js, jobsN("css", "VerifCSSImport", rng(0, 3), "css: @import URL stays a well-formed string")...)
+			js = append(js, jobsN("css", "VerifCSSFuncArgs", []int{0}, "css: argument tokens never fuse (output parses to the same tokens)")...)
 			js = append(js, jobsN("json", "VerifJSONValue", pick(rng(1, 4), rng(1, 5)), "json: RFC-valid input => RFC-valid output (reference recogniser)")...)
 			js = append(js, jobsN("xml", "VerifXMLText", pick(rng(0, 2), rng(0, 3)), "xml: well-formed input => well-formed output (reference reader)")...)
 			js = append(js, jobsN("xml", "VerifXMLAttr", pick(rng(0, 3), rng(0, 4)), "xml: well-formed input => well-formed output (reference reader)")...)
@@ -307,6 +309,7 @@ func propC09() *PropSpec {
 			js = append(js, jobsN("js", "VerifJSNumberMember", pick(rng(1, 4), rng(1, 5)), "js: (numeric literal of n symbolic bytes).p is accepted again")...)
 			js = append(js, jobsN("js", "VerifJSStringUnits", pick(rng(1, 2), rng(1, 2)), "js: string literal units incl. escaped </script (no </script may appear)")...)
 			js = append(js, jobsN("svg", "VerifSVGTree", []int{0}, "svg: namespaced / editor / foreignObject templates: output well-formed")...)
+			js = append(js, jobsN("svg", "VerifSVGEntities", rng(0, 1), "svg: references to < and & in text and attribute values stay escaped (output well-formed)")...)
 			js = append(js, jobsN("svg", "VerifSVGPathNumbers", pick([]int{2}, []int{2, 4}), "svg: number notations in path data: output is valid path data")...)
 			js = append(js, Job{Pkg: "json", Fn: "VerifJSONTwin", N: 3, ExpectFail: true, Desc: "vacuity twin"})
 			return js
@@ -337,6 +340,7 @@ func propC03() *PropSpec {
 			js = append(js, jobsN("html", "VerifHTMLPre", pick(rng(0, 3), rng(0, 5)), "pre/textarea content untouched")...)
 			js = append(js, jobsN("html", "VerifHTMLTree", pick(rng(1, 3), rng(1, 4)), "conforming trees built by n symbolic actions over 13 element kinds + text + comments; reference tree builder on input and output")...)
 			js = append(js, jobsN("html", "VerifHTMLTreeWitness", []int{0}, "recorded witnesses of known findings of the tree harness")...)
+			js = append(js, jobsN("html", "VerifHTMLPInContainer", []int{0}, "<X><p>a</p>TAIL</X>b for 14 containers (custom elements, transparent content, flow) x 3 tails: </p> omitted only where the end tag closes the paragraph")...)
 			js = append(js, jobsN("html", "VerifHTMLStartTags", []int{0}, "html/head/body/colgroup start tags with and without attributes")...)
 			js = append(js, Job{Pkg: "html", Fn: "VerifHTMLTwin", N: 0, ExpectFail: true, Desc: "vacuity twin"})
 			return js
@@ -368,6 +372,11 @@ func propC04() *PropSpec {
 			js = append(js, jobsN("css", "VerifCSSColorFunc", []int{0}, "hsl()/hsla()/rgb()/rgba() on argument grids")...)
 			js = append(js, jobsN("css", "VerifCSSNumber", pick(rng(1, 4), rng(1, 5)), "number lexeme of n symbolic bytes x 9 units x 4 properties x KeepCSS2")...)
 			js = append(js, jobsN("css", "VerifCSSLongNumber", []int{0}, "7 numbers of 17-24 significant digits x 4 units x 9 Precision values x KeepCSS2")...)
+			js = append(js, jobsN("css", "VerifCSSImport", pick(rng(0, 4), rng(0, 5)), "@import url(<n bytes over { a b space quotes backslash }>): same URL, well-formed")...)
+			js = append(js, jobsN("css", "VerifCSSAttrSelector", pick(rng(0, 2), rng(0, 3)), "a[lang OP \"V\" MOD]: 6 operators x 5 modifiers x 2 quotes x value of n bytes")...)
+			js = append(js, jobsN("css", "VerifCSSFuncArgs", []int{0}, "fn(A1 SEP A2): 9 x 9 signed/unsigned numbers and dimensions x 5 separators x 4 functions: tokens never fuse")...)
+			js = append(js, jobsN("css", "VerifCSSCustomProp", pick(rng(1, 4), rng(1, 5)), "a{--x:V}: custom property value kept byte for byte")...)
+			js = append(js, jobsN("css", "VerifCSSBackgroundLayers", []int{0}, "background with two layers of <= 3 words (image, box keywords): origin and clip per layer")...)
 			js = append(js, jobsN("css", "VerifCSSBox", rng(1, 4), "margin/padding/border-width/inset with n values")...)
 			js = append(js, jobsN("css", "VerifCSSBgPos", rng(1, 4), "background-position with n tokens")...)
 			js = append(js, jobsN("css", "VerifCSSFlex", rng(1, 3), "flex with n tokens")...)
@@ -499,6 +508,8 @@ func propC05() *PropSpec {
 			js = append(js, jobsN("svg", "VerifSVGPathArc", pick([]int{1, 2}, []int{1, 2}), "arc with compact flags; n>=2: implicitly repeated arcs")...)
 			js = append(js, jobsN("svg", "VerifSVGAttr", []int{0}, "26 root attributes x 26 x 9 child attributes x Inline x KeepComments")...)
 			js = append(js, Job{Pkg: "svg", Fn: "VerifSVGTwin", N: 0, ExpectFail: true, Desc: "vacuity twin"})
+			js = append(js, jobsN("svg", "VerifSVGEntities", pick(rng(0, 2), rng(0, 3)), "<svg><text a=\"U..\">U..</text></svg>, <= n units each (references to < & > \" and text): well-formed, same character data and attribute value")...)
+			js = append(js, jobsN("svg", "VerifSVGColorAttr", []int{0}, "fill / stop-color = # + 3, 4, 6 or 8 symbolic hex digits over { 0 8 A }: same colour and alpha")...)
 			return js
 		},
 	}
